@@ -491,9 +491,10 @@ class Compiler(object):
 
         sequences_and_sets = self.get_type_descriptors(
             type_descriptors,
-            ['SEQUENCE', 'SET'])
+            ['SEQUENCE', 'SET'],
+            module_name)
 
-        for type_descriptor in sequences_and_sets:
+        for type_descriptor, module_name in sequences_and_sets:
             for member in type_descriptor['members']:
                 if member == EXTENSION_MARKER:
                     continue
@@ -839,21 +840,35 @@ class Compiler(object):
 
         return type_descriptor, module_name
 
-    def get_type_descriptors(self, type_descriptors, type_names):
+    def get_type_descriptors(self, type_descriptors, type_names, module_name):
+        """Returns a list of all type descriptors of given types found in
+        given type descriptors, each with the name of the module the
+        types it refers to are looked up from.
+
+        """
+
         result = []
 
         for type_descriptor in type_descriptors:
             result += self.get_type_descriptors_type(type_descriptor,
-                                                     type_names)
+                                                     type_names,
+                                                     module_name)
 
         return result
 
-    def get_type_descriptors_type(self, type_descriptor, type_names):
+    def get_type_descriptors_type(self,
+                                  type_descriptor,
+                                  type_names,
+                                  module_name):
         type_descriptors = []
         type_name = type_descriptor['type']
 
+        # An instance of a parameterized type defined in another
+        # module refers to types in that module.
+        module_name = type_descriptor.get('module-name', module_name)
+
         if type_name in type_names:
-            type_descriptors.append(type_descriptor)
+            type_descriptors.append((type_descriptor, module_name))
 
         if 'members' in type_descriptor:
             for member in type_descriptor['members']:
@@ -862,19 +877,23 @@ class Compiler(object):
 
                 if isinstance(member, list):
                     type_descriptors.extend(self.get_type_descriptors(member,
-                                                                      type_names))
+                                                                      type_names,
+                                                                      module_name))
                 else:
                     type_descriptors += self.get_type_descriptors_type(member,
-                                                                       type_names)
+                                                                       type_names,
+                                                                       module_name)
 
         if 'element' in type_descriptor:
             type_descriptors += self.get_type_descriptors_type(
                 type_descriptor['element'],
-                type_names)
+                type_names,
+                module_name)
 
         for parameter in self.get_actual_parameter_types(type_descriptor):
             type_descriptors += self.get_type_descriptors_type(parameter,
-                                                               type_names)
+                                                               type_names,
+                                                               module_name)
 
         return type_descriptors
 
